@@ -291,6 +291,12 @@ func verifHandle(r *verifReq) (resp map[string]any) {
 		} else {
 			resp["funcs"] = funcs
 		}
+	case "reflclosure":
+		// S = Go source (package p, no imports), Name = root type, Seed as usual
+		verifSetCfg(r)
+		for k, v := range verifReflClosure(r.S, r.Name) {
+			resp[k] = v
+		}
 	case "rxgarble":
 		resp["out"] = rxGarbleFlag.MatchString(r.S)
 	default:
